@@ -89,6 +89,8 @@ func VfC03_SplitRouting() {
 // VfC03_TableFill: after a successful CLUSTER NODES round the slot table maps every slot of a
 // master's declared ranges to that master with exactly its replicas attached; a later round with
 // a changed layout replaces addresses and replica lists (no stale entries).
+var vfKeyOfSlot = map[int]string{0: "k596", 1: "k37999", 99: "k17955", 100: "k2136", 3999: "k14844", 4000: "k4508", 4001: "k19218", 4049: "k50490", 4050: "k51887", 4051: "k13622", 7999: "k21271", 8000: "k15392", 8001: "k8482", 8191: "k8036", 8192: "k3962", 8193: "k2398", 8241: "k23477", 8242: "k22860", 12191: "k23679", 12192: "k142412", 16383: "k10322"}
+
 func VfC03_TableFill() {
 	seed := "10.0.0.1:7000"
 	u, clients := vfNewUpstream(nil, seed)
@@ -145,6 +147,13 @@ func VfC03_TableFill() {
 		if inst == nil {
 			return
 		}
+		if key, ok := vfKeyOfSlot[s]; ok {
+			// what a client sees: a write for a key of that slot is routed to the declaring master
+			nd.Assert(vfSlotOfKey(key) == s, "harness: the probe key hashes to the probed slot")
+			wr := newSimpleRequest(newStringArray("set", key, "v"))
+			got, cerr := u.chooseHost([]byte(key), wr)
+			nd.Assert(cerr == nil && got == addr, "a write for a key of a declared slot is routed to the master that declares it in the latest layout")
+		}
 		if replica == "" {
 			nd.Assert(len(inst.Replicas) == 0, "exactly the master's replicas are attached")
 		} else {
@@ -180,6 +189,22 @@ func VfC03_TableFill() {
 	probe(lo, "10.0.9.9:7000", "10.0.1.7:7000")
 	probe(hi, "10.0.9.9:7000", "10.0.1.7:7000")
 	nd.Cover("three-rounds")
+	// round 4: the range is resharded: A keeps the lower half, a new master C takes the upper half
+	if lo < hi {
+		text4 := "idA 10.0.9.9:7000@17000 master - 0 0 3 connected " + mkRange(lo, mid) + "\n" +
+			"idR2 10.0.1.7:7000@17000 slave idA 0 0 1 connected\n" +
+			"idC 10.0.1.8:7000@17000 master - 0 0 4 connected " + mkRange(mid+1, hi) + "\n"
+		err = round(text4)
+		nd.Assert(err == nil, "fourth round accepted")
+		if err != nil {
+			return
+		}
+		probe(lo, "10.0.9.9:7000", "10.0.1.7:7000")
+		probe(mid, "10.0.9.9:7000", "10.0.1.7:7000")
+		probe(mid+1, "10.0.1.8:7000", "")
+		probe(hi, "10.0.1.8:7000", "")
+		nd.Cover("resharded")
+	}
 }
 
 // VfC03_RouteDuringRefresh: a keyed request is routed while a slots refresh that confirms the
